@@ -5,7 +5,6 @@ import (
 	"math/big"
 	"math/rand"
 	"sort"
-	"strings"
 
 	"github.com/cockroachdb/apd/v3"
 
@@ -42,7 +41,7 @@ func callMode(op string, c dec.Ctx, m string, x, y dec.D, aux int64) Outcome {
 }
 
 func sysErr(o Outcome) bool {
-	return o.Flags&sysFlags != 0 || (o.Err != nil && strings.Contains(o.Err.Error(), "exponent out of range"))
+	return isSystemOutcome(o)
 }
 
 // numLE reports a <= b numerically for non-NaN values (zeros equal).
